@@ -15,12 +15,13 @@ EXTENDS MultiTransportCore
 MonB(M, init, ce) == [name |-> "mon", M |-> M, init |-> init, selIds |-> {}, maxSel |-> 0, maxW |-> 0, maxR |-> 0,
                       maxP |-> 0, probes |-> {}, maxRac |-> 0, hold |-> TRUE, cerr |-> ce]
 
-MonInit == [S |-> {}, b |-> MonB({}, "none", {}), bad |-> {}, unk |-> FALSE,
+MonInit == [S |-> {}, b |-> MonB({}, "none", {}), bad |-> {}, unk |-> FALSE, badCfg |-> "",
             steps |-> 0, writes |-> 0, raced |-> 0, selects |-> 0, unknownSels |-> 0, seen |-> 0, reads |-> 0,
             probes |-> 0, closes |-> 0, maxS |-> 0, held |-> 0, queuedSels |-> 0]
 MonReset(e) == IF "p" \in DOMAIN e     \* (a child process that died before printing anything has a synthesised Reset without p)
               THEN [MonInit EXCEPT !.b = MonB({ e.p.members[i] : i \in 1..Len(e.p.members) }, e.p.init,
-                                              { e.p.closeErr[i] : i \in 1..Len(e.p.closeErr) })]
+                                              { e.p.closeErr[i] : i \in 1..Len(e.p.closeErr) }),
+                                   !.badCfg = e.p.badCfg]
               ELSE MonInit
 
 RECURSIVE Closure(_)
@@ -33,7 +34,9 @@ IsMemberId(m, x) == x \in m.b.M
 \* ---- NewTransport
 StepNew(m, e) ==
     LET known == m.b.init \in m.b.M IN
-    IF e.ret = "ok"
+    IF m.badCfg # ""         \* validateConfig: no members, an empty group id or a wrong group total must be refused
+    THEN [m EXCEPT !.S = {}, !.bad = @ \cup (IF e.ret = "error" THEN {} ELSE IF e.ret = "panic" THEN {"Crash"} ELSE {"BadConfigAccepted"})]
+    ELSE IF e.ret = "ok"
     THEN [m EXCEPT !.S = IF known THEN { Base(m.b, m.b.init) } ELSE { Base(m.b, x) : x \in m.b.M },   \* unknown id accepted = "ignored": any member may be current
                    !.unk = ~known]
     ELSE [m EXCEPT !.S = {}, !.unk = ~known,
